@@ -239,6 +239,41 @@ func init() {
 					fn.name, cond, want, fn.lean, cond == want)
 			}
 		}
+		// ResponseOptimizerPlanner: the condition under which OnAfterEntriesSlice returns without sending
+		_, fo, err := parseFile("reader/logql/logql_transpiler_v2/internal_planner/planner_fingerprint_optimizer.go")
+		if err != nil {
+			return "", err
+		}
+		fdo := findFunc(fo, "ResponseOptimizerPlanner", "Process")
+		if fdo == nil {
+			return "", fmt.Errorf("ResponseOptimizerPlanner.Process not found")
+		}
+		var holds []string
+		ast.Inspect(fdo.Body, func(x ast.Node) bool {
+			kv, ok := x.(*ast.KeyValueExpr)
+			if !ok {
+				return true
+			}
+			if k, ok := kv.Key.(*ast.Ident); !ok || k.Name != "OnAfterEntriesSlice" {
+				return true
+			}
+			fl, ok := kv.Value.(*ast.FuncLit)
+			if !ok || len(fl.Body.List) == 0 {
+				return true
+			}
+			if is, ok := fl.Body.List[0].(*ast.IfStmt); ok && len(is.Body.List) == 1 {
+				if _, ok := is.Body.List[0].(*ast.ReturnStmt); ok {
+					var b bytes.Buffer
+					printer.Fprint(&b, token.NewFileSet(), is.Cond)
+					holds = append(holds, b.String())
+				}
+			}
+			return true
+		})
+		if len(holds) != 1 {
+			return "", fmt.Errorf("ResponseOptimizerPlanner.Process: expected OnAfterEntriesSlice to start with `if <cond> { return nil }`, found %d", len(holds))
+		}
+		fmt.Fprintf(&sb, "/-- `ResponseOptimizerPlanner` keeps collecting (sends nothing after an input batch) under this condition -/\ndef optimizerHoldCond : String := %s\n", leanStr(holds[0]))
 		sb.WriteString("end Qryn.Gen\n")
 		return sb.String(), nil
 	})
